@@ -268,7 +268,7 @@ BASE_RESOURCES = [NAMESPACES, EVENTS, CRDS]
 class Request:
     __slots__ = ('idx', 'client', 'n', 't', 'method', 'path', 'query', 'payload', 'ctype', 'kind',
                  'plural', 'ns', 'name', 'sub', 'status', 'result_rv', 'landed_uid', 'fault', 't_done', 'watch',
-                 'g', 'g_done', 'prev_rv', 'lost', 't_end', 'token')
+                 'g', 'g_done', 'prev_rv', 'lost', 't_end', 'token', 'task')
 
     def __init__(self, **kw: Any) -> None:
         for k in self.__slots__:
@@ -662,7 +662,8 @@ class FakeKube:
         client.n += 1
         req = Request(idx=len(self.requests), client=client.name, n=client.n, t=self.now(), method=method,
                       path=u.path + ('?' + u.query if u.query else ''), query=q, payload=copy.deepcopy(payload),
-                      ctype=headers.get('Content-Type'), watch=(q.get('watch') == 'true'), g=next(GSEQ), token=client.token)
+                      ctype=headers.get('Content-Type'), watch=(q.get('watch') == 'true'), g=next(GSEQ), token=client.token,
+                      task=(lambda t: t.get_name() if t is not None else None)(asyncio.current_task()))   # who asks: 'runner of <id>' = a daemon/timer
         self._classify(req, u.path)
         self.requests.append(req)
         if client.dead:
